@@ -345,6 +345,13 @@ class Report:
                 return
         self.violations.append((key, what, replay))
 
+    # conformance results for parts of the system no listed property speaks about (DESIGN.md 9.7): recorded in the
+    # evidence and printed, never a violation, never the exit code
+    def observation(self, site, clause, what):
+        o = self.cov.setdefault("extension_observations", {})
+        e = o.setdefault(f"{site}|{clause}", {"cases": 0, "what": what})
+        e["cases"] += 1
+
     def add_tlc(self, name, res, consts=None):
         self.cov["states"] += res.distinct
         self.cov["transitions"] += res.generated
@@ -377,6 +384,8 @@ class Report:
         rc = 0
         for key, (f, n, what) in sorted(self.known_hit.items()):
             print(f"KNOWN-FINDING: property={self.pid} {f['id']} {f['what']} [{n} case(s) in this run; key {key}]")
+        for key, e in sorted(self.cov.get("extension_observations", {}).items()):
+            print(f"OBSERVATION (outside the listed properties): {key} - {e['what']} [{e['cases']} case(s)]")
         grouped = {}
         for key, what, replay in self.violations:
             grouped.setdefault(key, []).append((what, replay))
